@@ -40,6 +40,10 @@ def parse (toks : List String) : Option Op :=
   | ["newch", d] => do some (.newch (← nat? d))
   | ["forget", w] => do some (.forget (← nat? w))
   | ["restart"] => some .restart
+  | ["hb"] => some .hb
+  | ["blk+", g] => some (.blk (g == "g") 1)
+  | ["blkn", n] => do some (.blk true (← nat? n))
+  | ["blk-", g] => some (.unblk (g == "g"))
   | _ => none
 
 def stepLine (s : St) (toks : List String) : St × String :=
@@ -48,7 +52,10 @@ def stepLine (s : St) (toks : List String) : St × String :=
   | some op =>
     match step cfg s op with
     | none => (s, "panic")
-    | some (s', r) => (s', (match r with | .ok => "ok " | .err => "err ") ++ digest s')
+    | some (s', r) =>
+      -- block requests print the tracker's relative height, every other request the node digest
+      let isBlk := match op with | .blk _ _ => true | .unblk _ => true | _ => false
+      (s', (match r with | .ok => "ok " | .err => "err ") ++ (if isBlk then s!"h={s'.height}" else digest s'))
 
 def model : Model := { σ := St, init := st0, step := stepLine }
 
